@@ -9,18 +9,22 @@ from typing import Any
 
 
 def _make_key(method):
-    method = method.func if isinstance(method, partial) else method
+    bound_args: Any = ()
+    if isinstance(method, partial):
+        bound_args = (len(method.args), tuple(sorted(method.keywords)))
+        method = method.func
     method = method.fget if isinstance(method, property) else method
+    # the code object tells parameter names and kinds apart, the defaults tell which are optional
+    shape = (
+        method.__code__,
+        len(getattr(method, "__defaults__", None) or ()),
+        tuple(sorted(getattr(method, "__kwdefaults__", None) or ())),
+        bound_args,
+    )
     if isinstance(method, MethodType):
-        return hash(
-            (
-                method.__qualname__,
-                method.__self__.__class__.__name__,
-                method.__code__.co_varnames,
-            )
-        )
+        return hash((method.__qualname__, method.__self__.__class__.__name__, shape))
     else:
-        return hash((method.__qualname__, method.__code__.co_varnames))
+        return hash((method.__qualname__, shape))
 
 
 def signature_cache(user_function):
